@@ -1,7 +1,7 @@
 """C19 — narrow-phase queries terminate (exit discipline only)."""
 from . import scopes
 from ..core.report import DOMAIN_D
-from ..rules import loops, safediv, unpack, misc2
+from ..rules import loops, safediv, unpack, misc2, defined
 from .common import NARROW_PHASE, lib_module_names
 
 
@@ -17,6 +17,7 @@ def run(idx, rep, tier):
     rep.assumptions = DOMAIN_D
     mods = lib_module_names(idx)        # every loop reachable from a narrow-phase entry point (scope filter), wherever it lives
     loops.r_loop(idx, rep, mods, floor=14)
+    defined.r_defined(idx, rep, mods, floor=20)      # a read of an unassigned local is an exception on that path
     safediv.r_safediv(idx, rep, floor=4)
     misc2.r_basisguard(idx, rep)
     misc2.r_dupcond(idx, rep, [m.name for m in idx.lib_modules()], floor=3)
